@@ -66,10 +66,21 @@ def classify(record):
         return None
     tainted = set()       # registers whose metadata is inconsistent (or whose content derives from such a register)
     keys = []
+    meta = {}             # register -> (log_delta, log_budget) as last reported
     for s, r in zip(steps, rows):
         op, d, a, b = s[0], s[1], s[2], s[3]
         st, ld, lb, size = r[0], r[1], r[2], r[3]
         used = _uses(op, d, a, b)
+        # ct x ct product of operands with "mixed" metadata (one has the larger log_delta, the other the larger log_budget)
+        if st == 0 and op in (32, 33, 44, 49):
+            x, y = (meta.get(d), meta.get(a)) if op == 33 else (meta.get(a), meta.get(b))
+            if x and y and (x[0] - y[0]) * (x[1] - y[1]) < 0:
+                keys.append("C16:mul_ct.mixed_meta_wrong_scale")
+                tainted.add(d)
+        if st != 99:
+            meta[d] = (ld, lb)
+            if op == 64 and len(r) >= 7:
+                meta[b] = (r[4], r[5])
         huge = any(x >= HUGE for x in s[4:])
         exceeds = st != 99 and (ld + lb > size * B or ld >= HUGE or lb >= HUGE)
         if st == 99:
